@@ -326,6 +326,36 @@ def pair_cases(tier, shard, nshards):
     return out[shard::nshards]
 
 
+def check_cross_class(case):
+    """one value validated by every name-constrained argument of every class in turn, in one
+    process: a verdict reached for a name under one limit (queue, 256) must not be reused
+    under another (exchange / virtual host, 127), whichever class sees the value first"""
+    v = case['v']
+    slots = NAME_SLOTS if case['order'] == 'forward' else NAME_SLOTS[::-1]
+    if case['order'] == 'queues-first':
+        slots = sorted(NAME_SLOTS, key=lambda t: -t[3])
+    n = 0
+    for via in case['vias']:
+        for dotted, slot, kind, limit in slots:
+            judge(dotted, slot, v, via, valid_name(v, kind, limit),
+                  'cross-class:' + kind_of(dotted, slot))
+            n += 1
+    return {'labels': ['order=' + case['order']], 'sub_evaluations': n}
+
+
+def cross_class_cases(tier, shard, nshards):
+    out = []
+    values = [fill * n for n in (1, 126, 127, 128, 129, 200, 254, 255, 256, 257)
+              for fill in ('a', 'Q', '.')]
+    values += ['a' * 127 + '*', 'a*b', '\xe9' * 128, 'a' * 255 + '\n', 'K' * 200]
+    for v in values:
+        for order in ('forward', 'reverse', 'queues-first'):
+            for vias in (('ctor',), ('marshal',), ('ctor', 'marshal'),
+                         ('marshal', 'ctor')):
+                out.append({'v': v, 'order': order, 'vias': list(vias)})
+    return out[shard::nshards]
+
+
 def check_twins(case):
     """two names that are 'equal' for a user-defined str subclass (case-insensitive,
     whitespace-insensitive) but consist of different characters, validated one after the
@@ -487,6 +517,11 @@ COMPONENTS = [
               exhaustive=True, shards={'quick': 8, 'thorough': 8},
               describe='classes with two name-constrained arguments: both set together, '
                        '10 x 10 boundary lengths, equal and different strings'),
+    Component('cross-class', check_cross_class, cases=cross_class_cases,
+              distinct_by_construction=True, shards={'quick': 8, 'thorough': 8},
+              describe='one value (boundary lengths 126..257, invalid characters) validated '
+                       'by every name-constrained argument of every class in turn, three '
+                       'orders, both paths'),
     Component('twins', check_twins, cases=twin_cases, distinct_by_construction=True,
               shards={'quick': 8, 'thorough': 8},
               describe='names of a str subclass with user-defined (case / whitespace '
